@@ -33,7 +33,16 @@ pub enum Len {
 
 #[derive(Clone, Debug, Serialize, Deserialize)]
 pub enum Case {
-    Bytes { len: Len, seed: u64, mode: u8, follow: u8 },
+    Bytes {
+        len: Len,
+        seed: u64,
+        mode: u8,
+        follow: u8,
+        /// bit i set: the i-th transmission attempt of the send is interrupted (EINTR, nothing
+        /// transmitted); whatever send then reports, an accepted payload must arrive as sent
+        #[serde(default)]
+        eintr_mask: u16,
+    },
     Typed {
         plan: NP,
         pad: Option<Len>,
@@ -266,7 +275,9 @@ impl Prop for C01 {
         let depth = if ctx.thorough { 6 } else { 5 };
         prop_oneof![
             5 => (len_strategy(max_exp), any::<u64>(), 0u8..2, any::<u8>())
-                .prop_map(|(len, seed, mode, follow)| Case::Bytes { len, seed, mode, follow }),
+                .prop_map(|(len, seed, mode, follow)| Case::Bytes { len, seed, mode, follow, eintr_mask: 0 }),
+            1 => (len_strategy(max_exp.min(18)), any::<u64>(), 0u8..2, any::<u8>(), prop_oneof![1u16..64, any::<u16>()])
+                .prop_map(|(len, seed, mode, follow, eintr_mask)| Case::Bytes { len, seed, mode, follow, eintr_mask }),
             4 => (node::data_tree(depth, 96), proptest::option::weighted(0.3, len_strategy(max_exp.min(19))), 0u8..3)
                 .prop_map(|(plan, pad, mode)| Case::Typed { plan, pad, mode, after_failed: None }),
             1 => (node::data_tree(depth, 48), proptest::option::weighted(0.3, len_strategy(max_exp.min(16))), 0u8..3, 0u16..3000)
@@ -283,18 +294,18 @@ impl Prop for C01 {
         let mut v = vec![];
         for k in 1..=4u8 {
             for delta in -16i8..=16 {
-                v.push(Case::Bytes { len: Len::Boundary { k, delta }, seed: 0x5eed ^ ((k as u64) << 8) ^ (delta as u8 as u64), mode: (delta as u8) & 1, follow: delta as u8 });
+                v.push(Case::Bytes { len: Len::Boundary { k, delta }, seed: 0x5eed ^ ((k as u64) << 8) ^ (delta as u8 as u64), mode: (delta as u8) & 1, follow: delta as u8, eintr_mask: 0 });
                 if delta % 4 == 0 || ctx.thorough {
                     v.push(Case::Typed { plan: NP::U8(k), pad: Some(Len::Boundary { k, delta }), mode: (delta as u8) % 3, after_failed: if delta == 0 { Some(100 * k as u16) } else { None } });
                 }
             }
         }
         for n in 0..=33u32 {
-            v.push(Case::Bytes { len: Len::Exact(n), seed: n as u64 + 1, mode: (n & 1) as u8, follow: n as u8 });
+            v.push(Case::Bytes { len: Len::Exact(n), seed: n as u64 + 1, mode: (n & 1) as u8, follow: n as u8, eintr_mask: 0 });
         }
         if ctx.thorough && ctx.param("big") == Some("1") {
             for (i, n) in [16u32 << 20, (32 << 20) + 1, 64 << 20].iter().enumerate() {
-                v.push(Case::Bytes { len: Len::Exact(*n), seed: 77 + i as u64, mode: 0, follow: 3 });
+                v.push(Case::Bytes { len: Len::Exact(*n), seed: 77 + i as u64, mode: 0, follow: 3, eintr_mask: 0 });
             }
         }
         v
@@ -302,15 +313,20 @@ impl Prop for C01 {
 
     fn exec(_ctx: &Ctx, case: &Case) -> Result<Outcome, Failure> {
         match case {
-            Case::Bytes { len, seed, mode, follow } => {
+            Case::Bytes { len, seed, mode, follow, eintr_mask } => {
                 let n = resolve(len);
                 let data = payload::make(1, 0, 0, n, *seed);
                 let fol = payload::make(1, 0, 1, payload::HEADER + *follow as usize, seed ^ 0xabcdef);
                 let (tx, rx) = ipc::bytes_channel().map_err(|e| Failure::inconclusive(format!("bytes_channel: {}", e)))?;
                 let (d2, f2) = (data.clone(), fol.clone());
+                let eintr_mask = *eintr_mask;
                 let sender = std::thread::spawn(move || {
                     ip::log_start(ip::gettid());
+                    if eintr_mask != 0 {
+                        ip::arm_errno(ip::gettid(), eintr_mask as u64, libc::EINTR);
+                    }
                     let r1 = tx.send(&d2);
+                    ip::disarm();
                     let ev = ip::log_stop();
                     let r2 = tx.send(&f2);
                     (r1.map_err(|e| e.to_string()), r2.map_err(|e| e.to_string()), ev)
@@ -328,9 +344,15 @@ impl Prop for C01 {
                     Err(h) => return Err(sandbox::hang_failure("bytes:receive-hangs", &format!("receiving a {}-byte payload", n), h)),
                 };
                 let (r1, r2, ev) = sender.join().map_err(|_| Failure::new("bytes:sender-panicked", format!("send of {} bytes panicked", n)))?;
-                ensure!(r1.is_ok(), "bytes:send-rejected", "send of {} bytes failed: {:?}", n, r1);
                 ensure!(r2.is_ok(), "bytes:send-rejected", "follow-on send failed: {:?}", r2);
-                let a = a.map_err(|e| Failure::new("bytes:recv-error", format!("len {}: {}", n, e)))?;
+                if eintr_mask != 0 && r1.is_err() {
+                    // an interrupted send may report the interruption; then nothing of it is delivered
+                    let a = a.map_err(|e| Failure::new("bytes:follow-on-recv-error", format!("after an interrupted send of {} bytes: {}", n, e)))?;
+                    ensure!(a == fol, "bytes:interrupted-send-delivered-something", "send of {} bytes reported {:?}, yet the receiver got a {}-byte message before the follow-on", n, r1, a.len());
+                    return Ok(Outcome::new(true, "bytes/interrupted-send-reported"));
+                }
+                ensure!(r1.is_ok(), "bytes:send-rejected", "send of {} bytes failed: {:?}", n, r1);
+                let a = a.map_err(|e| Failure::new("bytes:recv-error", format!("len {} (send returned Ok{}): {}", n, if eintr_mask != 0 { " after interrupted attempts" } else { "" }, e)))?;
                 ensure!(a.len() == data.len(), "bytes:length-differs", "sent {} bytes, received {}", data.len(), a.len());
                 if a != data {
                     fail!("bytes:content-differs", "len {}: first difference at byte {:?}", n, payload::first_diff(&a, &data));
